@@ -61,6 +61,7 @@ KINDS = {
     "VFREEBUSY": ["DTSTART", "DTEND", "FREEBUSY"],
     "VALARM": ["X-WHEN"],
     "X-COMP": ["X-WHEN", "DTSTART"],
+    "VTIMEZONE": ["X-WHEN", "X-WHEN", "LOCATION"],      # "any property of any nested component": definitions, too
 }
 CONTAINERS = {"VCALENDAR": ["VEVENT", "VTODO", "VJOURNAL", "VFREEBUSY", "X-COMP"],
               "VEVENT": ["VALARM", "X-COMP"], "VTODO": ["VALARM"], "X-COMP": ["VEVENT", "VTODO", "X-COMP", "VALARM"],
